@@ -60,7 +60,7 @@ def run_unit(name, tier, seed):
                   dict(kinds_by_depth=lambda d: REMOVALS if d <= 3 else ['ADD'], D=6, budget=2500, fwd=(-1, 2), alphabet=red)]
     else:
         passes = [dict(kinds_by_depth=lambda d: KINDS if d <= 3 else ['ADD', 'DOTSET'], D=10, budget=40000, fwd=(-2, 4), alphabet=full),
-                  dict(kinds_by_depth=lambda d: REMOVALS if d <= 5 else ['ADD'], D=8, budget=25000, fwd=(-2, 4), alphabet=full)]
+                  dict(kinds_by_depth=lambda d: REMOVALS if d <= 3 else ['ADD'], D=6, budget=2500, fwd=(-1, 2), alphabet=red)]
     r = f1.multi(name, passes, judge, judge_concrete, per_step=per_step)
     keep = []
     for c in r['cands']:
@@ -92,7 +92,7 @@ def describe():
              'non-trivial = every history',
         functions=['xmlelement/xmlelement.py:XMLElement.add_child', 'XMLElement.remove', 'XMLElement.__setattr__', 'xmlelement/xmlchildcontainer.py:XMLChildContainer.add_element',
                    'XMLChildContainer._update_requirements_in_path', 'XMLChildContainer.max_is_reached', 'XMLChildContainer.duplicate'],
-        bounds=dict(exploration='breadth-first over reachable states, depth <= 8 (10 thorough), path budget 3000 (40000) per class; forward adds and value assignments from states at depth <= 2 (3); add/remove pass: depth <= 6 (8), 2500 (25000) paths, removals from states at depth <= 3 (5)',
+        bounds=dict(exploration='breadth-first over reachable states, depth <= 8 (10 thorough), path budget 3000 (40000) per class; forward adds and value assignments from states at depth <= 2 (3); add/remove pass (same in both tiers): depth <= 6, 2500 paths, reduced alphabet, removals from states at depth <= 3',
                     oracle='unbounded word length (linear integer arithmetic)', outside='longer histories'),
         assumptions=['dead end is judged at the level of the schema (multiset containment), then confirmed on the real code by to_string and a bounded completion search (<= 2 further children)'],
         exhaustive_within_bounds=True)
